@@ -663,10 +663,62 @@ def rule_r3(chk, prog):
                 isinstance(t, ast.Attribute) and t.attr == 'data'
                 for t in st.targets):
             v = unparse(st.value)
-            ok = v in ('_data', 'str(args[0])') or (
-                isinstance(st.value, ast.Call)
-                and call_name(st.value) == 'tuple'
-                and '__ensure_is_node(' in v)
+
+            def converter(e):
+                """e (a name / attribute / lambda) maps anything to a
+                Node: every return of the function is a Node(..) call or
+                the argument itself under isinstance(arg, Node)"""
+                if isinstance(e, ast.Lambda) and isinstance(
+                        e.body, ast.Call) and len(e.body.args) == 1 and \
+                        isinstance(e.body.args[0], ast.Name) and \
+                        e.args.args and e.body.args[0].id == \
+                        e.args.args[0].arg:
+                    e = e.body.func
+                nm = None
+                if isinstance(e, ast.Name):
+                    nm = e.id
+                elif isinstance(e, ast.Attribute):
+                    nm = e.attr
+                g = None
+                for q_, f_ in m.funcs.items():
+                    if nm and q_.split('.')[-1].endswith(nm):
+                        g = f_
+                if g is None:
+                    return False
+                ps_ = [a.arg for a in g.args.args if a.arg != 'self']
+                if not ps_:
+                    return False
+                rets = [r for r in walk_no_nested(g)
+                        if isinstance(r, ast.Return)]
+                if not rets:
+                    return False
+                for r in rets:
+                    if isinstance(r.value, ast.Call) and call_name(
+                            r.value) in ('Node', 'nodes.Node'):
+                        continue
+                    if isinstance(r.value, ast.Name) and \
+                            r.value.id == ps_[0] and (
+                                f'isinstance({ps_[0]}, Node)',
+                                True) in facts_at(g, r.value):
+                        continue
+                    return False
+                return True
+
+            ok = v in ('_data', 'str(args[0])')
+            if not ok and isinstance(st.value, ast.Call) and call_name(
+                    st.value) == 'tuple' and len(st.value.args) == 1:
+                a0 = st.value.args[0]
+                if isinstance(a0, ast.Call) and call_name(a0) == 'map' and \
+                        len(a0.args) == 2 and unparse(a0.args[1]) == 'args':
+                    ok = converter(a0.args[0])
+                elif isinstance(a0, (ast.GeneratorExp, ast.ListComp)) and \
+                        len(a0.generators) == 1 and unparse(
+                            a0.generators[0].iter) == 'args' and \
+                        not a0.generators[0].ifs and isinstance(
+                            a0.elt, ast.Call) and len(a0.elt.args) == 1 and \
+                        unparse(a0.elt.args[0]) == unparse(
+                            a0.generators[0].target):
+                    ok = converter(a0.elt.func)
             chk.check('C12.R3', 'nodes.Node.__init__', st, ok,
                       'data slot assigned from an unexpected expression',
                       loc=m.loc(st))
